@@ -70,11 +70,12 @@ type Map struct {
 }
 
 type Chan struct {
-	abs    *smt.Term // trace mode: abstract channel identified by this term
-	Cap    int
-	Buf    []Value
-	Closed bool
-	id     int
+	abs         *smt.Term // trace mode: abstract channel identified by this term
+	Cap         int
+	Buf         []Value
+	Closed      bool
+	id          int
+	recvWaiting int // goroutines blocked in a receive (rendezvous on unbuffered channels)
 }
 
 type Iter struct {
